@@ -216,6 +216,11 @@ fn p2_strategy(max_m: usize) -> impl Strategy<Value = P2Case> {
                     p.1 = F(f64::from_bits(0x0010_0000_0000_0000 + (p.0 % 0x00B0_0000_0000_0000) + i as u64));
                 }
             }
+            // one case in 16: the history before the reset is the single item whose identifier equals the placeholder of the signature
+            // (the signature then looks untouched although the registers are not)
+            if mid_reset % 16 == 5 {
+                prefix = vec![(PLACEHOLDER, F(1.0e6))];
+            }
             P2Case { m: if filler > 0 { 2 + m % 30 } else { m }, wy, prefix, suffix, mid_reset, filler }
         })
 }
@@ -251,7 +256,7 @@ fn p2_run<H: std::hash::Hasher + Default>(c: &P2Case) -> Eval {
         ensure!(used.get_signature() == fresh.get_signature(), "ProbMinHash2 m={}: after reset and {} items the signature differs from a new instance: {:?} vs {:?}", c.m, i + 1, used.get_signature(), fresh.get_signature());
         ensure!(bits(&used.verif_registers()) == bits(&fresh.verif_registers()), "ProbMinHash2 m={}: after reset and {} items the registers differ from a new instance", c.m, i + 1);
     }
-    Ok(Report::new(!c.prefix.is_empty()).class("ProbMinHash2").class_if(c.prefix.len() >= c.m, "prefix-n>=m").class_if(c.filler > 0, "prefix-with>65000-negligible-items"))
+    Ok(Report::new(!c.prefix.is_empty()).class("ProbMinHash2").class_if(c.prefix.len() >= c.m, "prefix-n>=m").class_if(c.filler > 0, "prefix-with>65000-negligible-items").class_if(c.prefix.len() == 1 && c.prefix[0].0 == PLACEHOLDER, "history-is-only-the-placeholder-item"))
 }
 fn bits(v: &[f64]) -> Vec<u64> {
     v.iter().map(|x| x.to_bits()).collect()
